@@ -259,7 +259,6 @@ func runHold(threads [][]string) concResult {
 	return res
 }
 
-
 // runSchedule executes the program once under the given choice prefix (0 beyond it).
 func runSchedule(system string, threads [][]string, choices []int) concResult {
 	c := &ctrl{byGid: map[string]int{}, events: make(chan schedEvent), held: map[string]int{}}
@@ -288,7 +287,7 @@ func runSchedule(system string, threads [][]string, choices []int) concResult {
 		c.resume = append(c.resume, make(chan struct{}))
 	}
 	execOp := func(op string, i int) {
-				f := strings.Split(op, ":")
+		f := strings.Split(op, ":")
 		switch f[0] {
 		case "L":
 			pid, _ := strconv.Atoi(f[1])
